@@ -105,6 +105,7 @@ def gen_aliases(rules):
             "Require Import SV.Layout.Ty.\nOpen Scope string_scope.\n\n"
             "Definition builtin_aliases : list (string * option ty) := [\n" + ";\n".join(lines) + "\n].\n")
     write_if_changed(os.path.join(GEN, "Aliases.v"), text)
+    return [(n, None if t == "none" else parse_sx(t)) for n, t in zip(names, res)]
 
 
 def coq_peg(e):
@@ -151,7 +152,7 @@ def regenerate(grammar=True):
     with Lock("gen"):
         rows = gen_jets()
         rules = grammar_rules()
-        gen_aliases(rules)
+        aliases = gen_aliases(rules)
         if grammar and os.path.exists(os.path.join(COQ, "Text", "Peg.v")):
             gen_grammar(rules)
-    return {"jets": rows, "rules": rules}
+    return {"jets": rows, "rules": rules, "aliases": aliases}
